@@ -70,7 +70,7 @@ structure Cfg where
 
 def Cfg.good : Cfg := ⟨true, true, true, true, true⟩
 
-inductive Err | invalidTerm | invalidStatus | noSuchNode | notLeader | timeout | invalidHead
+inductive Err | invalidTerm | invalidStatus | noSuchNode | notLeader | timeout | invalidHead | outOfBounds
   deriving DecidableEq, Repr
 
 /-- what a controller created over existing storage starts with -/
@@ -106,10 +106,11 @@ def newTerm (w : World) (i : Nat) (t : Int) : World × Except Err (Int × Int) :
     else if t = n.term ∧ n.status ≠ .fenced then (setNode w i n, .error .invalidStatus)
     else (setNode w i { n with term := t, status := .fenced, cursors := [], rf := 0 }, .ok (headOf n.log))
 
-/-- `getHighestEntryOfTerm`: the last entry of the leader's log with that term -/
+/-- `getHighestEntryOfTerm`: the last entry of the leader's log whose term is **at most** `t`
+    (the reverse scan stops at the first entry with `e.Term <= term`) -/
 def highestOfTerm (log : List Entry) (t : Int) : Int × Int :=
-  match (log.zipIdx.filter (fun p => p.1.term = t)).getLast? with
-  | some p => (t, (p.2 : Int))
+  match (log.zipIdx.filter (fun p => p.1.term ≤ t)).getLast? with
+  | some p => (p.1.term, (p.2 : Int))
   | none => (-1, -1)
 
 /-- the follower's side of the Truncate RPC -/
@@ -120,6 +121,9 @@ def truncateFollower (cfg : Cfg) (w : World) (f : Nat) (t : Int) (upTo : Int) : 
   | some n =>
     if n.status ≠ .fenced ∧ (cfg.truncFencedOnly ∨ n.status ≠ .follower) then (setNode w f n, .error .invalidStatus)
     else if t ≠ n.term then (setNode w f n, .error .invalidTerm)
+    -- `wal.TruncateLog` beyond the last offset of a non-empty log: ErrOffsetOutOfBounds (the status is
+    -- already FOLLOWER at that point)
+    else if upTo ≥ (n.log.length : Int) ∧ n.log ≠ [] then (setNode w f { n with status := .follower }, .error .outOfBounds)
     else
       let log' := n.log.take (upTo + 1).toNat
       (setNode w f { n with status := .follower, log := log' }, .ok ((log'.length : Int) - 1))
